@@ -69,6 +69,10 @@ namespace verif::e2 {
 
     // a harness may install its own site filter (used by e2/mpi.cpp: only mpi.* tm.* x.*)
     inline bool (*g_wanted)(char const*) = nullptr;
+    // per-harness extensions: extra site prefixes to record, and a record filter (true = drop the
+    // record; used for high-frequency polling sites whose uninteresting values are stutter)
+    inline bool (*g_wanted_extra)(char const*) = nullptr;
+    inline bool (*g_drop)(char const* site, void const* obj, std::uint64_t a, std::uint64_t b) = nullptr;
 
     inline bool wanted(char const* s)
     {
@@ -84,7 +88,7 @@ namespace verif::e2 {
         case 'b': return s[1] == 'o';                                   // body.*
         case 'x': return true;                                          // x.* harness notes
         case 'g': return s[1] == 'a';                                   // gac.* global activity count
-        default: return false;
+        default: return g_wanted_extra != nullptr && g_wanted_extra(s);
         }
     }
 
@@ -109,6 +113,13 @@ namespace verif::e2 {
     inline void sink(int phase, char const* site, void const* obj, std::uint64_t a,
         std::uint64_t b) noexcept
     {
+        // a POST whose PRE took the log lock must release it even if logging was switched off in between
+        if (phase == 2 && tl_holding && !g_enabled.load(std::memory_order_relaxed))
+        {
+            tl_holding = false;
+            unlock();
+            return;
+        }
         if (!g_enabled.load(std::memory_order_relaxed) || !wanted(site)) return;
         int os = os_id();
         if (phase == 0)
@@ -124,7 +135,8 @@ namespace verif::e2 {
             return;
         }
         if (!tl_holding) lock();
-        if (g_log->size() < g_max_records) g_log->push_back(rec{os, site, obj, a, b});
+        if (g_drop != nullptr && g_drop(site, obj, a, b)) {}
+        else if (g_log->size() < g_max_records) g_log->push_back(rec{os, site, obj, a, b});
         else g_overflow.store(true);
         tl_holding = false;
         unlock();
